@@ -285,6 +285,10 @@ func applyEdge(st Facts, add Facts) {
 			delete(st, "false:"+k[5:])
 		case strings.HasPrefix(k, "false:"):
 			delete(st, "true:"+k[6:])
+		case strings.HasPrefix(k, "empty:"):
+			delete(st, "nonempty:"+k[6:])
+		case strings.HasPrefix(k, "nonempty:"):
+			delete(st, "empty:"+k[9:])
 		}
 		st[k] = true
 	}
@@ -655,8 +659,34 @@ func (m *Flow) condFacts(cond ast.Expr, st Facts) (t, f Facts) {
 				}
 			}
 			return t, f
+		case token.GTR, token.GEQ:
+			// len(x) > 0 / len(x) >= 1
+			if call, ok := ast.Unparen(c.X).(*ast.CallExpr); ok {
+				if id, ok := call.Fun.(*ast.Ident); ok && id.Name == "len" && len(call.Args) == 1 {
+					if bl, ok := ast.Unparen(c.Y).(*ast.BasicLit); ok && ((c.Op == token.GTR && bl.Value == "0") || (c.Op == token.GEQ && bl.Value == "1")) {
+						if key := m.atomKey(call.Args[0], st); key != "" {
+							t["nonempty:"+key], f["empty:"+key] = true, true
+						}
+						return t, f
+					}
+				}
+			}
 		case token.EQL, token.NEQ:
 			x, y := ast.Unparen(c.X), ast.Unparen(c.Y)
+			if call, ok := x.(*ast.CallExpr); ok {
+				if id, ok := call.Fun.(*ast.Ident); ok && id.Name == "len" && len(call.Args) == 1 {
+					if bl, ok := y.(*ast.BasicLit); ok && bl.Value == "0" {
+						if key := m.atomKey(call.Args[0], st); key != "" {
+							if c.Op == token.EQL {
+								t["empty:"+key], f["nonempty:"+key] = true, true
+							} else {
+								t["nonempty:"+key], f["empty:"+key] = true, true
+							}
+						}
+						return t, f
+					}
+				}
+			}
 			if isNilExpr(m.info, x) {
 				x, y = y, x
 			}
